@@ -287,6 +287,7 @@ class Emitter:
         s.m = m; s.out = []; s.tydefs = []; s.tynames = {}; s.arr_names = {}; s.lit_names = {}
         s.fn_names = {}
         s.strid = 0
+        s.ov_helpers = set()
     # ---- C type names
     def cty(s, ty):
         if isinstance(ty, IntTy):
@@ -744,7 +745,7 @@ class Emitter:
             else: body.append('return %s;' % s.operand(p, ty))
             return
         if op == 'unreachable':
-            body.append('__CPROVER_assert(0, "reached unreachable (UB)"); __CPROVER_assume(0);'); return
+            body.append('VRT_UB("reached unreachable");'); return
         if op == 'phi':
             return  # handled on edges
         if op == 'extractvalue':
@@ -789,9 +790,11 @@ class Emitter:
                     if e is None: return
                 elif name == 'vassert':
                     m_ = re.fullmatch(r'\(\(uint32_t\)(\d+)ULL\)', args[1])
-                    body.append('__CPROVER_assert(%s, "vassert#%s");' % (args[0], m_.group(1) if m_ else '?')); return
+                    if not m_:
+                        body.append('VRT_ASSERT_DYN(%s, %s);' % (args[0], args[1])); return
+                    body.append('VRT_ASSERT(%s, %s);' % (args[0], m_.group(1))); return
                 elif name == 'vassume':
-                    body.append('__CPROVER_assume(%s);' % args[0]); return
+                    body.append('VRT_ASSUME(%s);' % args[0]); return
                 else:
                     e = '%s(%s)' % (s.fname(name), ', '.join(args))
             else:
@@ -814,44 +817,17 @@ class Emitter:
         m_ = re.fullmatch(r'llvm\.(uadd|usub|umul|sadd|ssub|smul)\.with\.overflow\.i(\d+)', name)
         if m_:
             lit = s.lit_name(rty)
+            s.ov_helpers.add((m_.group(1), int(m_.group(2)), lit))
             return '__%s_ov_%s_%s(%s)' % (m_.group(1), m_.group(2), lit.split()[-1], ', '.join(args))
-        if name.startswith('llvm.trap'): return '__CPROVER_assert(0, "llvm.trap"), __CPROVER_assume(0)'
+        if name.startswith('llvm.trap'): return 'VRT_UB("llvm.trap")'
         if name.startswith('llvm.expect.'): return args[0]
         if name.startswith('llvm.objectsize.'): return '((%s)-1)' % s.cty(rty)
         if name.startswith('llvm.threadlocal.address'): return args[0]
         raise Unsupported('intrinsic ' + name)
 
-PRELUDE = r'''
-#include <stdint.h>
-#include <stddef.h>
+PRELUDE = '#include "gen_prelude.h"\n'
 
-uint64_t __undef_u64(void);
-static void vrt_memcpy(uint8_t* d, const uint8_t* s, uint64_t n){ for (uint64_t i = 0; i < n; i++) d[i] = s[i]; }
-static void vrt_memmove(uint8_t* d, const uint8_t* s, uint64_t n){ if (__CPROVER_POINTER_OBJECT(d) != __CPROVER_POINTER_OBJECT(s) || d <= (uint8_t*)s) { for (uint64_t i = 0; i < n; i++) d[i] = s[i]; } else { for (uint64_t i = n; i > 0; i--) d[i-1] = s[i-1]; } }
-static void vrt_memset(uint8_t* d, uint8_t v, uint64_t n){ for (uint64_t i = 0; i < n; i++) d[i] = v; }
-
-static inline double __f64_from_bits(uint64_t b){ union { uint64_t u; double d; } x; x.u = b; return x.d; }
-static inline float  __f32_from_bits(uint32_t b){ union { uint32_t u; float d; } x; x.u = b; return x.d; }
-static inline uint64_t __bits_from_f64(double d){ union { uint64_t u; double d; } x; x.d = d; return x.u; }
-static inline uint32_t __bits_from_f32(float d){ union { uint32_t u; float d; } x; x.d = d; return x.u; }
-static inline uint64_t __vfshl_64(uint64_t a, uint64_t b, uint64_t c){ c &= 63; return c ? (a << c) | (b >> (64 - c)) : a; }
-static inline uint64_t __vfshr_64(uint64_t a, uint64_t b, uint64_t c){ c &= 63; return c ? (a << (64 - c)) | (b >> c) : b; }
-static inline uint32_t __vfshl_32(uint32_t a, uint32_t b, uint32_t c){ c &= 31; return c ? (a << c) | (b >> (32 - c)) : a; }
-static inline uint32_t __vfshr_32(uint32_t a, uint32_t b, uint32_t c){ c &= 31; return c ? (a << (32 - c)) | (b >> c) : b; }
-static inline uint16_t __vbswap_16(uint16_t x){ return (uint16_t)((x >> 8) | (x << 8)); }
-static inline uint32_t __vbswap_32(uint32_t x){ return (x >> 24) | ((x >> 8) & 0xff00u) | ((x << 8) & 0xff0000u) | (x << 24); }
-static inline uint64_t __vbswap_64(uint64_t x){ return ((uint64_t)__vbswap_32((uint32_t)x) << 32) | __vbswap_32((uint32_t)(x >> 32)); }
-static inline uint64_t __vumin_64(uint64_t a, uint64_t b){ return a < b ? a : b; }
-static inline uint64_t __vumax_64(uint64_t a, uint64_t b){ return a > b ? a : b; }
-static inline uint32_t __vumin_32(uint32_t a, uint32_t b){ return a < b ? a : b; }
-static inline uint32_t __vumax_32(uint32_t a, uint32_t b){ return a > b ? a : b; }
-static inline uint64_t __vsmin_64(uint64_t a, uint64_t b){ return (int64_t)a < (int64_t)b ? a : b; }
-static inline uint64_t __vsmax_64(uint64_t a, uint64_t b){ return (int64_t)a > (int64_t)b ? a : b; }
-static inline uint32_t __vsmin_32(uint32_t a, uint32_t b){ return (int32_t)a < (int32_t)b ? a : b; }
-static inline uint32_t __vsmax_32(uint32_t a, uint32_t b){ return (int32_t)a > (int32_t)b ? a : b; }
-'''
-
-def translate(text, keep=None):
+def translate(text, keep=None, want_info=False):
     m = parse_module(text)
     em = Emitter(m)
     fbodies = []
@@ -893,9 +869,39 @@ def translate(text, keep=None):
     for name, f in m.funcs.items():
         protos.append(em.proto(name, f.ret, [t for t, _ in f.params]) + ';')
     types = em.emit_types()
+    ovh = ['/* ---- *.with.overflow helpers ---- */']
+    for (op, bits, lit) in sorted(em.ov_helpers):
+        T = em.cty(IntTy(bits)); S = em.sty(IntTy(bits)); W = 'unsigned __int128' if bits == 64 else 'uint64_t'
+        SW = '__int128' if bits == 64 else 'int64_t'
+        o = {'add': '+', 'sub': '-', 'mul': '*'}[op[1:]]
+        if op[0] == 'u':
+            if op == 'usub': ov = 'a < b'
+            else: ov = '((%s)a %s (%s)b) > (%s)(%s)~(%s)0' % (W, o, W, W, T, T)
+            body = '%s r; r.f0 = (%s)((%s)a %s (%s)b); r.f1 = (%s) ? 1 : 0; return r;' % (lit, T, W, o, W, ov)
+        else:
+            body = '%s r; %s w = (%s)(%s)a %s (%s)(%s)b; r.f0 = (%s)w; r.f1 = (w != (%s)(%s)(%s)w) ? 1 : 0; return r;' % (lit, SW, SW, S, o, SW, S, T, SW, S, T)
+        ovh.append('static inline %s __%s_ov_%d_%s(%s a, %s b){ %s }' % (lit, op, bits, lit.split()[-1], T, T, body))
+    types = types + ovh
     out = [PRELUDE] + types + protos + glines + (sw if 'vrt_switch' in m.decls else [])
     for fb in fbodies: out.extend(fb)
-    return '\n'.join(out) + '\n'
+    csrc = '\n'.join(out) + '\n'
+    if not want_info: return csrc
+    # call graph over IR names (direct references, including address-taken functions)
+    cg = {}
+    known = set(m.funcs) | set(m.decls)
+    for name, f in m.funcs.items():
+        refs = set()
+        for lab, ins in f.blocks:
+            for toks in ins:
+                for tk in toks:
+                    if tk.startswith('@'):
+                        n = m.aliases.get(unq(tk), unq(tk))
+                        if n in known: refs.add(n)
+        cg[name] = sorted(refs)
+    mut = [name for name, (ty, init, const, tls) in m.globals.items() if not const and not tls]
+    info = {'defined': list(m.funcs), 'declared': [d for d in m.decls if not d.startswith('llvm.')], 'callgraph': cg,
+            'mutable_globals': mut, 'tls_globals': [n for n, g in m.globals.items() if g[3]]}
+    return csrc, info
 
 if __name__ == '__main__':
     src = open(sys.argv[1]).read()
